@@ -67,6 +67,9 @@ func CheckGenesis(g *GenesisConfig) error {
 	if err := CheckUniqueAddresses(g); err != nil {
 		return err
 	}
+	if err := CheckNoNegativeAmounts(g); err != nil {
+		return err
+	}
 	if err := CheckPlasmaInfo(g); err != nil {
 		return err
 	}
@@ -78,6 +81,43 @@ func CheckGenesis(g *GenesisConfig) error {
 	}
 	if err := CheckTokenTotalSupply(g); err != nil {
 		return err
+	}
+	return nil
+}
+
+// CheckNoNegativeAmounts refuses negative amounts: the checks below compare signed sums, the genesis state is built
+// from the magnitudes, so a negative entry compensated by another one would pass them with a state that differs from
+// the configuration.
+func CheckNoNegativeAmounts(g *GenesisConfig) error {
+	negative := func(amount *big.Int) bool {
+		return amount != nil && amount.Sign() < 0
+	}
+	for _, block := range g.GenesisBlocks.Blocks {
+		for zts, amount := range block.BalanceList {
+			if negative(amount) {
+				return errors.Errorf("negative balance for %v. Got %v %v", block.Address, amount, zts)
+			}
+		}
+	}
+	for _, token := range g.TokenConfig.Tokens {
+		if negative(token.TotalSupply) || negative(token.MaxSupply) {
+			return errors.Errorf("negative supply for token %v", token.TokenStandard)
+		}
+	}
+	for _, pillar := range g.PillarConfig.Pillars {
+		if negative(pillar.Amount) {
+			return errors.Errorf("negative amount for pillar %v", pillar.Name)
+		}
+	}
+	for _, fusion := range g.PlasmaConfig.Fusions {
+		if negative(fusion.Amount) {
+			return errors.Errorf("negative amount for fusion %v", fusion.Id)
+		}
+	}
+	for _, entry := range g.SwapConfig.Entries {
+		if negative(entry.Znn) || negative(entry.Qsr) {
+			return errors.Errorf("negative swap balance for KeyIdHash %v", entry.KeyIdHash)
+		}
 	}
 	return nil
 }
